@@ -253,6 +253,10 @@ func diff(path string, s, g any, o *DiffOptions) string {
 			return fmt.Sprintf("%s: sent %s, got %s", path, descr(s), descr(g))
 		}
 		if sv.State != gv.State {
+			if o.SliceLenient && ((sv.State == "unset" && gv.State == "set" && emptyObject(gv.Value)) || (gv.State == "unset" && sv.State == "set" && emptyObject(sv.Value))) {
+				// the style table cannot tell a member-less object from an absent parameter
+				return ""
+			}
 			if o.AllowDefaults && sv.State == "unset" && gv.State == "set" {
 				if o.Defaults != nil {
 					*o.Defaults = append(*o.Defaults, fmt.Sprintf("%s=%s", path, descr(gv.Value)))
@@ -464,4 +468,35 @@ func descrTo(b *strings.Builder, x any, depth int) {
 	default:
 		fmt.Fprintf(b, "%v", v)
 	}
+}
+
+// emptyObject: a struct snapshot whose members are all unset / empty, or an empty collection.
+func emptyObject(x any) bool {
+	switch v := x.(type) {
+	case *SStruct:
+		for _, f := range v.Order {
+			switch fv := v.Fields[f].(type) {
+			case *SOpt:
+				if fv.State != "unset" {
+					return false
+				}
+			case []any:
+				if len(fv) != 0 {
+					return false
+				}
+			case map[string]any:
+				if len(fv) != 0 {
+					return false
+				}
+			default:
+				return false
+			}
+		}
+		return true
+	case map[string]any:
+		return len(v) == 0
+	case []any:
+		return len(v) == 0
+	}
+	return false
 }
